@@ -38,7 +38,7 @@ RULE = ("each run builds an upload tree with symlinks and a prefix-sharing sibli
         "a plain relative one, or the request was not permitted")
 PROBES = ["write_fault_mid_file", "write_fault_at_0", "open_fault", "mkdir_fault", "replace_fault",
           "overwrite_existing", "symlink_to_outside", "symlink_inside", "traversal_spelling",
-          "sibling_prefix", "delete_request", "token_wrong", "size_over_limit", "via_protocol",
+          "sibling_prefix", "delete_request", "token_wrong", "size_over_limit", "upload_with_limit_zero", "via_protocol",
           "must_succeed_core", "fault_on_existing_file", "handler_from_server_config"]
 COMPONENTS = {
     "real": ["nauyaca.server.handler.FileUploadHandler", "nauyaca.protocol.request.TitanRequest "
@@ -103,7 +103,8 @@ def run_one(ch):
     root = fresh_dir("c14")
     U = build_tree(root)
     realU = os.path.realpath(U)
-    max_size = ch.pick("max", [1000, 10, 100000])
+    # 0 = "no upload is small enough" (deletes only)
+    max_size = ch.pick("max", [1000, 10, 100000, 0], [4, 3, 2, 1])
     tokens = ch.pick("tokens", [None, {"sekrit"}, {"sekrit", "other"}], [3, 4, 1])
     types = ch.pick("types", [None, ["text/plain", "text/gemini"], ["image/png"]], [5, 3, 1])
     delete = bool(ch.choose("delete", 2))
@@ -135,8 +136,9 @@ def run_one(ch):
         for i in range(nreq):
             pi = ch.choose("path", len(PATHS), [6, 6, 3, 3, 2] + [1] * (len(PATHS) - 5))
             path, pclass = PATHS[pi]
-            size = ch.biased_size("size", 0, max_size + 20, [0, 1, max_size - 1, max_size,
-                                                             max_size + 1, 50])
+            size = ch.biased_size("size", 0, max_size + 20,
+                                  [x for x in (0, 1, max_size - 1, max_size, max_size + 1, 50)
+                                   if 0 <= x <= max_size + 20])
             content = ch.bytes_("content", size)
             tokv = ch.choose("tok", 5, [2, 5, 2, 1, 1])
             tokstr = ["", ";token=sekrit", ";token=wrong", ";token=wrong;token=sekrit",
@@ -290,6 +292,8 @@ def run_one(ch):
                 res.stats["token_wrong"] += 1
             if size > max_size:
                 res.stats["size_over_limit"] += 1
+                if max_size == 0:
+                    res.stats["upload_with_limit_zero"] += 1
             if via_proto:
                 res.stats["via_protocol"] += 1
             res.stats["requests"] += 1
